@@ -190,16 +190,22 @@ where
         if state == &self.current_state {
             return;
         }
-        match self.paused_animation.as_ref() {
-            Some((paused_state, paused_position)) if state == paused_state => {
-                self.state_duration = *paused_position;
+        // The remembered pause is consumed by resuming it, and discarded as soon as any other
+        // animated state is entered; it only survives passing through un-animated states.
+        match self.paused_animation.take() {
+            Some((paused_state, paused_position)) if state == &paused_state => {
+                self.state_duration = paused_position;
             }
-            _ => {
+            previously_paused => {
                 let was_animating = self.timelines.get(&self.current_state).is_some();
                 let will_animate = self.timelines.get(state).is_some();
-                if was_animating && !will_animate {
-                    self.paused_animation = Some((self.current_state.clone(), self.state_duration));
-                }
+                self.paused_animation = if was_animating && !will_animate {
+                    Some((self.current_state.clone(), self.state_duration))
+                } else if will_animate {
+                    None
+                } else {
+                    previously_paused
+                };
                 self.blend_next_timeline(state);
                 self.state_duration = Duration::ZERO;
             }
